@@ -111,6 +111,13 @@ Qed.
 Definition all_below (n : N) : list N := count_from (N.to_nat n) 0.
 Lemma all_below_complete : forall n b, b < n -> In b (all_below n).
 Proof. intros n b H. unfold all_below. apply count_from_In. lia. Qed.
+Lemma count_from_In_inv : forall fuel start b, In b (count_from fuel start) -> start <= b < start + N.of_nat fuel.
+Proof.
+  induction fuel as [|f IH]; intros start b H; [destruct H|].
+  cbn [count_from] in H. destruct H as [E|H]; [lia|]. apply IH in H. lia.
+Qed.
+Lemma all_below_In : forall n b, In b (all_below n) -> b < n.
+Proof. intros n b H. unfold all_below in H. apply count_from_In_inv in H. lia. Qed.
 Definition all_bytes : list N := all_below 256.
 Lemma all_bytes_complete : forall b, b < 256 -> In b all_bytes.
 Proof. intros b H. apply all_below_complete. exact H. Qed.
